@@ -14,6 +14,7 @@
 namespace c14 {
 
 void need_runtime(); // defined in c14_containers.cpp
+bool parent_root(const std::vector<int>& hist);
 
 template <class T>
 struct tname {
@@ -316,7 +317,8 @@ struct RingCase {
       if (r.getAt(i).v != m[i] || cr.getAt(i).v != m[i])
         sx::fail(C + ":getAt", "after %s: getAt(%zu) = %d, reference %d", after,
                  i, r.getAt(i).v, m[i]);
-      if ((*(r.begin() + i)).v != m[i] || r.begin()[i].v != m[i])
+      if ((*(r.begin() + i)).v != m[i] ||
+          static_cast<const Elem&>(r.begin()[i]).v != m[i])
         sx::fail(C + ":random-access", "after %s: *(begin()+%zu) = %d, "
                                        "reference %d",
                  after, i, (*(r.begin() + i)).v, m[i]);
@@ -459,6 +461,10 @@ struct RingCase {
 static const char* const CRING_OPS[] = {"push_back(0)", "push_back(1)",
                                         "push_front(1)", "pop_front"};
 inline std::string cring_run(const std::vector<int>& hist) {
+  // the call under test has undefined behaviour in the library itself: keep
+  // it out of the driver process (seqx evaluates the root there)
+  if (parent_root(hist))
+    return "s0:";
   reg().reset();
   alarm(20); // the library function under test may not return sensibly
   galois::FixedSizeRing<Elem, 3> r;
